@@ -533,6 +533,9 @@ impl<'p> ObjectData<'p> {
     pub(super) fn get_fields_order(&self) -> &[(InternedStr<'p>, ast::Visibility)] {
         enum FieldState {
             Normal(ast::Visibility),
+            // Visible by default so far, but the layers up to (and including)
+            // this index are hidden by a removal marker.
+            DefaultRemoved(usize),
             Removed(usize),
         }
 
@@ -561,12 +564,28 @@ impl<'p> ObjectData<'p> {
                         std::collections::btree_map::Entry::Occupied(mut entry) => {
                             let entry = entry.get_mut();
                             match entry {
-                                FieldState::Normal(ast::Visibility::Default) => {
-                                    if let ObjectField::Normal(f) = f {
+                                FieldState::Normal(ast::Visibility::Default) => match f {
+                                    ObjectField::Normal(f) => {
                                         *entry = FieldState::Normal(f.visibility);
                                     }
-                                }
+                                    ObjectField::Removed(depth) => {
+                                        *entry = FieldState::DefaultRemoved(layer_i + *depth);
+                                    }
+                                },
                                 FieldState::Normal(_) => {}
+                                FieldState::DefaultRemoved(removed_layer_i) => {
+                                    if layer_i > *removed_layer_i {
+                                        match f {
+                                            ObjectField::Normal(f) => {
+                                                *entry = FieldState::Normal(f.visibility);
+                                            }
+                                            ObjectField::Removed(depth) => {
+                                                *entry =
+                                                    FieldState::DefaultRemoved(layer_i + *depth);
+                                            }
+                                        }
+                                    }
+                                }
                                 FieldState::Removed(removed_layer_i) => {
                                     if layer_i > *removed_layer_i {
                                         *entry = field_to_state(f, layer_i);
@@ -581,6 +600,7 @@ impl<'p> ObjectData<'p> {
                 .into_iter()
                 .filter_map(|(n, f)| match f {
                     FieldState::Normal(vis) => Some((n.0, vis)),
+                    FieldState::DefaultRemoved(_) => Some((n.0, ast::Visibility::Default)),
                     FieldState::Removed(_) => None,
                 })
                 .collect()
